@@ -216,7 +216,7 @@ def run_poll(pid, tier, seed):
         p = core.sh(rcmd)
         if p.returncode != 0:
             print(p.stdout[-1500:], p.stderr[-1500:]); core.die('routex failed')
-        r = tlc_trace('RouteTrace.tla', robs, ['C18_TransportToldTheKind'], f'{rundir}/rv', extra_consts='  Known = {}\n')
+        r = tlc_trace('RouteTrace.tla', robs, ['C18_TransportToldTheKind', 'C18_TransportToldTheListener'], f'{rundir}/rv', extra_consts='  Known = {}\n')
         if r['error']:
             print(r['error']); core.die('TLC could not validate the hand-offs (machinery error)')
         cov['handoffs_to_the_transport'] = nvec
